@@ -162,11 +162,76 @@ def contains(sigma, pi):
     k = len(pi)
     if k > len(sigma):
         return False
+    if len(sigma) > 12:
+        return contains_long(sigma, pi, 10 ** 7)
     for c in itertools.combinations(range(len(sigma)), k):
         vals = [sigma[i] for i in c]
         if all((pi[a] < pi[b]) == (vals[a] < vals[b]) for a in range(k) for b in range(a + 1, k)):
             return True
     return False
+
+
+class Undecided(Exception):
+    """the bounded search of contains_long ran out of budget"""
+
+
+def _lis(seq):
+    import bisect
+    tails = []
+    for v in seq:
+        i = bisect.bisect_left(tails, v)
+        if i == len(tails):
+            tails.append(v)
+        else:
+            tails[i] = v
+    return len(tails)
+
+
+def contains_long(sigma, pi, budget=60000):
+    """containment for LONG permutations (the index-subset search above is hopeless beyond length ~12): the pattern's
+    entries are placed from left to right, each new entry strictly right of the previous one with a value strictly
+    between the values already given to its two neighbours in value among the earlier pattern entries; plain
+    backtracking with the obvious room test, after the necessary condition that the pattern's longest increasing /
+    decreasing subsequence is not longer than the text's; the search is bounded: `Undecided` is raised after `budget`
+    placements.  Same relation as `contains` (checked against it on all pairs up to length 6 / 4 in c16.run's
+    self-test)."""
+    sigma, pi = tuple(sigma), tuple(pi)
+    n, k = len(sigma), len(pi)
+    if k > n:
+        return False
+    if k == 0:
+        return True
+    if _lis(pi) > _lis(sigma) or _lis([-v for v in pi]) > _lis([-v for v in sigma]):
+        return False
+    left = [budget]
+    # for pattern index j: the earlier indices holding the closest smaller / larger pattern value
+    lo, hi = [], []
+    for j in range(k):
+        below = [i for i in range(j) if pi[i] < pi[j]]
+        above = [i for i in range(j) if pi[i] > pi[j]]
+        lo.append(max(below, key=lambda i: pi[i]) if below else None)
+        hi.append(min(above, key=lambda i: pi[i]) if above else None)
+    val = [0] * k
+
+    def go(j, start):
+        if j == k:
+            return True
+        lo_v = val[lo[j]] if lo[j] is not None else -1
+        hi_v = val[hi[j]] if hi[j] is not None else n
+        # pattern values strictly below / above pi[j] still need room in value
+        if hi_v - lo_v - 1 < 1:
+            return False
+        for pos in range(start, n - (k - j) + 1):
+            v = sigma[pos]
+            if lo_v < v < hi_v and v >= pi[j] and n - 1 - v >= k - 1 - pi[j]:
+                left[0] -= 1
+                if left[0] < 0:
+                    raise Undecided()
+                val[j] = v
+                if go(j + 1, pos + 1):
+                    return True
+        return False
+    return go(0, 0)
 
 
 def contains_any(sigma, basis):
